@@ -136,6 +136,9 @@ var calls = []callSpec{
 	{"Remove", true, true},
 	{"Rename(q,zz)", true, true},
 	{"Rename(f,q)", true, false},
+	// the directory R/d moved to a name reached through the query path: when the
+	// query leads back below R/d (through a link) rename(2) answers EINVAL
+	{"Rename(d,q/n)", true, false},
 	{"Lchown", true, false},
 	{"Chown", true, false},
 	{"Link(q,hl)", true, false},
